@@ -82,7 +82,7 @@ pub fn token_gaps(b: &[u8]) -> Vec<usize> {
 /// one random mutation; returns a short label of the mutation class
 pub fn mutate(r: &mut Rng, doc: &[u8]) -> (Vec<u8>, &'static str) {
     let mut b = doc.to_vec();
-    let k = r.below(14);
+    let k = r.below(16);
     match k {
         0 => {
             // truncate
@@ -189,6 +189,25 @@ pub fn mutate(r: &mut Rng, doc: &[u8]) -> (Vec<u8>, &'static str) {
             }
             b.insert(at, *r.pick(&[0u8, 1, 9, 10, 13, 0x1f]));
             (b, "raw-control")
+        }
+        14 | 15 => {
+            // a number-shaped token (long digit runs, `.`/`e` on every lane, malformed tails)
+            // replacing an existing number or inserted as an extra element
+            let t = crate::gen::numlit::number_shape(r.range(1, 140), r.below(64) as usize, r.chance(1, 4), r.range(0, 40));
+            let digits: Vec<usize> = (0..b.len()).filter(|i| b[*i].is_ascii_digit() && (*i == 0 || !b[*i - 1].is_ascii_digit())).collect();
+            if !digits.is_empty() && r.chance(2, 3) {
+                let s = *r.pick(&digits);
+                let mut e = s;
+                while e < b.len() && (b[e].is_ascii_digit() || matches!(b[e], b'.' | b'e' | b'E' | b'+' | b'-')) {
+                    e += 1;
+                }
+                b.splice(s..e, t.bytes());
+            } else {
+                let gaps = token_gaps(&b);
+                let i = (*r.pick(&gaps)).min(b.len());
+                b.splice(i..i, t.bytes());
+            }
+            (b, "number-shape")
         }
         11 => {
             // trailing garbage
